@@ -302,36 +302,44 @@ Theorem C14_translate_offsets_are_signed : forall (base d : Z), (0 <= base)%Z ->
   ((base + (d mod 16384) mod 256) mod 256 = (base + d) mod 256)%Z.
 Proof. intros base d H. split; [apply translate_signed_row|apply translate_signed_col]; exact H. Qed.
 
-(* the formula cells of a whole sheet substream, from its records: stream order, one cell per FORMULA
-   record; plain cells with the text of their own tokens, the cells of a shared group with the group's
-   expression translated to their own position, the cells of an array group with the array's expression *)
-Theorem C14_sheet_formulas_xls : forall show_f64 unrec sheets names xtis l,
+(* the formula cells of a whole sheet substream, from its records (the sheet's BOF, the items, EOF,
+   whatever follows): stream order, one cell per FORMULA record of the sheet itself; plain cells with
+   the text of their own tokens, the cells of a shared group with the group's expression translated to
+   their own position, the cells of an array group with the array's expression.  The items of a
+   layout include substreams nested in the sheet (FSub: the chart substream of an embedded chart
+   object, [MS-XLS] 2.1.7.20.5) holding ANY records — FORMULA / SHRFMLA / ARRAY records at cells of
+   the sheet's groups, further BOF … EOF pairs — anywhere between the formula records: they
+   contribute nothing and disturb nothing (audit 2, XLS-2) *)
+Theorem C14_sheet_formulas_xls : forall show_f64 unrec sheets names xtis l bof after,
   wf_layout sheets names xtis l ->
-  xls_sheet_formulas show_f64 unrec sheets names xtis (flat_map enc_fitem l)
+  xls_sheet_formulas show_f64 unrec sheets names xtis (enc_fsheet bof l after)
   = Ok (spec_formulas show_f64 sheets names xtis l).
 Proof. exact sheet_formulas_spec. Qed.
 
-Theorem C14_shared_formula_members_xls : forall show_f64 unrec sheets names xtis l p hd first phd rng cuse e r,
+Theorem C14_shared_formula_members_xls : forall show_f64 unrec sheets names xtis l bof after p hd first phd rng cuse e r,
   wf_layout sheets names xtis l ->
   In (FShared first phd rng cuse e) l -> In (FMember p hd first) l ->
-  xls_sheet_formulas show_f64 unrec sheets names xtis (flat_map enc_fitem l) = Ok r ->
+  xls_sheet_formulas show_f64 unrec sheets names xtis (enc_fsheet bof l after) = Ok r ->
   In (p, render_xls show_f64 (env_at sheets names xtis (Some p)) e) r /\
   In (first, render_xls show_f64 (env_at sheets names xtis (Some first)) e) r.
 Proof. exact shared_formula_members_xls. Qed.
 
-Theorem C14_array_formula_members_xls : forall show_f64 unrec sheets names xtis l p hd first phd rng flags e r,
+Theorem C14_array_formula_members_xls : forall show_f64 unrec sheets names xtis l bof after p hd first phd rng flags e r,
   wf_layout sheets names xtis l ->
   In (FArray first phd rng flags e) l -> In (FMember p hd first) l ->
-  xls_sheet_formulas show_f64 unrec sheets names xtis (flat_map enc_fitem l) = Ok r ->
+  xls_sheet_formulas show_f64 unrec sheets names xtis (enc_fsheet bof l after) = Ok r ->
   In (p, render_xls show_f64 (env_at sheets names xtis None) e) r /\
   In (first, render_xls show_f64 (env_at sheets names xtis None) e) r.
 Proof. exact array_formula_members_xls. Qed.
 
 (* a column of three cells sharing  =A2*2+$C$1  (first cell B2), read from B2, B3 and B4; a reference
-   whose translation wraps (row offset -1 seen from row 1 = row 65536); an array formula over A6:B7 *)
+   whose translation wraps (row offset -1 seen from row 1 = row 65536); an array formula over A6:B7;
+   between B2 and B3 an embedded chart whose substream holds a FORMULA record at B2, a SHRFMLA and an
+   ARRAY record and a further BOF … EOF pair (ex_shared_layout, FSub) *)
 Example C14_shared_formula_nonvacuous :
   wf_layout [] [] [] ex_shared_layout /\
-  xls_sheet_formulas (fun _ => []) (fun _ _ => []) [] [] [] (flat_map enc_fitem ex_shared_layout)
+  xls_sheet_formulas (fun _ => []) (fun _ _ => []) [] [] []
+    (enc_fsheet [0; 6; 16; 0] ex_shared_layout [(0x0809, []); (0x0006, [1; 2])])
   = Ok [((0, 3), lit "SUM(D65536:E$2)"); ((0, 4), lit "SUM(E65536:F$2)");
         ((1, 1), lit "A2*2+$C$1"); ((2, 1), lit "A3*2+$C$1"); ((3, 1), lit "A4*2+$C$1");
         ((5, 0), lit "SUM(A1:B2)"); ((5, 1), lit "SUM(A1:B2)"); ((6, 0), lit "SUM(A1:B2)"); ((6, 1), lit "SUM(A1:B2)")].
@@ -535,6 +543,23 @@ Check C14_array_formula_members_xlsb : forall show_f64 sheets names l1 l2 l3 p h
     (flat_map enc_bitem (l1 ++ BArray first fh rng flags e tl :: l2 ++ BMember p h first :: l3) ++ (0x0092, endd) :: rest) = Ok r ->
   In (p, render_xlsb show_f64 (benv_at sheets names None) e) r /\
   In (first, render_xlsb show_f64 (benv_at sheets names None) e) r.
+
+Check C14_sheet_formulas_xls : forall show_f64 unrec sheets names xtis l bof after,
+  wf_layout sheets names xtis l ->
+  xls_sheet_formulas show_f64 unrec sheets names xtis (enc_fsheet bof l after)
+  = Ok (spec_formulas show_f64 sheets names xtis l).
+Check C14_shared_formula_members_xls : forall show_f64 unrec sheets names xtis l bof after p hd first phd rng cuse e r,
+  wf_layout sheets names xtis l ->
+  In (FShared first phd rng cuse e) l -> In (FMember p hd first) l ->
+  xls_sheet_formulas show_f64 unrec sheets names xtis (enc_fsheet bof l after) = Ok r ->
+  In (p, render_xls show_f64 (env_at sheets names xtis (Some p)) e) r /\
+  In (first, render_xls show_f64 (env_at sheets names xtis (Some first)) e) r.
+Check C14_array_formula_members_xls : forall show_f64 unrec sheets names xtis l bof after p hd first phd rng flags e r,
+  wf_layout sheets names xtis l ->
+  In (FArray first phd rng flags e) l -> In (FMember p hd first) l ->
+  xls_sheet_formulas show_f64 unrec sheets names xtis (enc_fsheet bof l after) = Ok r ->
+  In (p, render_xls show_f64 (env_at sheets names xtis None) e) r /\
+  In (first, render_xls show_f64 (env_at sheets names xtis None) e) r.
 
 Print Assumptions C14_letters_injective.
 Print Assumptions C14_letters_inverse.
